@@ -334,7 +334,9 @@ func runC11(c *Ctx) {
 		c.check(excluded, "L2-SENTINEL", fnName, "budget error excluded from error-handler dispatch", hc.Pos(), why,
 			"ErrExecutionLimitExceeded is a *postScriptError and reaches the error-handler dispatch: every builtin level being unwound runs the `interrupt` handler through executeOne, which increments NumOps again (counts past N+1)")
 		// L8: handler nesting
-		k, ok := upperBoundConst(domConds(hc.Block()), func(v ssa.Value) bool { return lenOfField(v, ia.T, c.fld("intp.errors")) })
+		k, ok := upperBoundConst(domConds(hc.Block()), func(v ssa.Value) bool {
+			return lenOfField(v, ia.T, c.fld("intp.errors")) || handlerDepthCounter(v, ia.T, hc)
+		})
 		c.check(ok && k < 16, "L8-HANDLERNEST", fnName, "handler nesting bounded", hc.Pos(), fmt.Sprintf("len(errors) <= %d dominates the handler call", k),
 			"the nested error-handler invocation is not guarded by a constant bound on len(intp.errors)")
 	}
@@ -1198,4 +1200,57 @@ func edgeConds(pred, succ *ssa.BasicBlock) []cond {
 		}
 	}
 	return out
+}
+
+// handlerDepthCounter: v is the value of an unexported integer field of the interpreter that
+// counts the pending error handlers: v+1 is stored into the field before the handler call hc (the
+// store dominates it) and v itself is stored back after it.
+func handlerDepthCounter(v ssa.Value, T *types.TypeName, hc ssa.Instruction) bool {
+	v = origin(v)
+	base, f, ok := fieldOf(v)
+	if !ok || f.Exported() || !pointsTo(base.Type(), T) {
+		return false
+	}
+	if bt, ok := f.Type().Underlying().(*types.Basic); !ok || bt.Info()&types.IsInteger == 0 {
+		return false
+	}
+	var incSt *ssa.Store
+	eachInstr(hc.Parent(), func(ins ssa.Instruction) {
+		st, ok := ins.(*ssa.Store)
+		if !ok || !isFieldAddr(st.Addr, T, f.Name()) {
+			return
+		}
+		if bo, ok := st.Val.(*ssa.BinOp); ok && bo.Op == token.ADD && origin(bo.X) == v {
+			if k, isC := constInt(bo.Y); isC && k == 1 && dominatesInstr(st, hc) {
+				incSt = st
+			}
+		}
+	})
+	if incSt == nil {
+		return false
+	}
+	// the counter is set back to v on the way on from the handler call (the store is behind the
+	// increment and reachable from the call)
+	reach := map[*ssa.BasicBlock]bool{}
+	stack := []*ssa.BasicBlock{hc.Block()}
+	for len(stack) > 0 {
+		b := stack[len(stack)-1]
+		stack = stack[:len(stack)-1]
+		if reach[b] {
+			continue
+		}
+		reach[b] = true
+		stack = append(stack, b.Succs...)
+	}
+	restore := false
+	eachInstr(hc.Parent(), func(ins ssa.Instruction) {
+		st, ok := ins.(*ssa.Store)
+		if !ok || !isFieldAddr(st.Addr, T, f.Name()) {
+			return
+		}
+		if origin(st.Val) == v && dominatesInstr(incSt, st) && reach[st.Block()] && st != incSt {
+			restore = true
+		}
+	})
+	return restore
 }
